@@ -12,6 +12,6 @@ def jobs(tier):
 META = {
     "trusted_base": D.DFS_TRUSTED,
     "assumptions": [],
-    "outside": ["cat ordering and column layout (std::sort with a lambda comparator, colstream template, ostringstream::copyfmt)", "show-titles iteration"],
-    "explanation": "independent decoding of every field of the 8 metadata bytes for all 2^64 values; sign extension per doc/dfs.1",
+    "outside": ["std::sort itself and the column layout of cat (colstream template, ostringstream::copyfmt; colstream::tab/update_col are under C19)", "show-titles iteration", "the value of the .inf CRC (TapeCRC accumulation across pieces)"],
+    "explanation": "independent decoding of every field of the 8 metadata bytes for all 2^64 values; sign extension per doc/dfs.1; the info line and the .inf line against their output monitors; the catalogue header (title, cycle, boot option, total sectors: 10 bits, 11 on Watford DFS); the ordering key of cat (current directory first, then lower-cased directory, then case-insensitive name)",
 }
